@@ -3,7 +3,7 @@
 from __future__ import annotations
 
 _EXPR_KINDS = {
-    "int", "float", "id", "str", "istr", "path", "uri", "paren", "set", "list", "select", "app", "neg", "not", "has", "bin",
+    "int", "float", "id", "str", "istr", "path", "uri", "paren", "set", "list", "select", "app", "neg", "not", "has", "bin", "chain",
     "lambda", "let", "with", "assert", "if",
 }
 
